@@ -1,7 +1,8 @@
 //! Shared by c02 / c04 (included with `#[path]` after `mod quilgen`): abstraction of the real AST
 //! into the model AST of coq/Model/PrintParse.v for the instruction kinds that quilgen::instr (the
 //! C01 fragment) leaves out: PULSE / CAPTURE / RAW-CAPTURE, CALL, and (as `item`) the block definitions
-//! DEFCAL, DEFCAL MEASURE, DEFCIRCUIT, DEFFRAME, DEFWAVEFORM.
+//! DEFCAL, DEFCAL MEASURE, DEFCIRCUIT, DEFFRAME, DEFWAVEFORM, DEFGATE (matrix, permutation, Pauli sum,
+//! sequence).
 #![allow(dead_code)]
 use crate::quilgen::{self, Interner};
 use quil_rs::instruction::*;
@@ -246,7 +247,79 @@ pub fn item(i: &Instruction, it: &mut Interner) -> Option<String> {
                 es?.join("; ")
             )
         }
-        Instruction::GateDefinition(_) => return None,
+        Instruction::GateDefinition(d) => {
+            let spec = match &d.specification {
+                GateSpecification::Matrix(rows) => {
+                    let rs: Option<Vec<String>> = rows
+                        .iter()
+                        .map(|row| {
+                            let es: Option<Vec<String>> = row.iter().map(|e| quilgen::expr(e, it)).collect();
+                            Some(format!("[{}]", es?.join("; ")))
+                        })
+                        .collect();
+                    format!("GMatrix [{}]", rs?.join("; "))
+                }
+                GateSpecification::Permutation(p) => {
+                    format!("GPermutation [{}]", p.iter().map(|n| n.to_string()).collect::<Vec<_>>().join("; "))
+                }
+                GateSpecification::PauliSum(ps) => {
+                    let ts: Option<Vec<String>> = ps
+                        .terms
+                        .iter()
+                        .map(|t| {
+                            let word: String = t.arguments.iter().map(|(g, _)| g.to_string()).collect();
+                            let args: Vec<String> = t.arguments.iter().map(|(_, a)| a.clone()).collect();
+                            Some(format!(
+                                "({}, {}, {})",
+                                quilgen::ident(&word, it),
+                                quilgen::expr(&t.expression, it)?,
+                                idents(&args, it)
+                            ))
+                        })
+                        .collect();
+                    format!("GPauliSum {} [{}]", idents(&ps.arguments, it), ts?.join("; "))
+                }
+                GateSpecification::Sequence(_) => {
+                    let (qs, gates) = sequence_parts(d)?;
+                    let gs: Option<Vec<String>> =
+                        gates.iter().map(|g| quilgen::instr(&Instruction::Gate(g.clone()), it)).collect();
+                    format!("GSequence {} [{}]", idents(&qs, it), gs?.join("; "))
+                }
+            };
+            format!("DefGate {} {} ({spec})", quilgen::ident(&d.name, it), idents(&d.parameters, it))
+        }
         _ => format!("Plain ({})", instr(i, it)?),
     })
+}
+
+/// The qubit names and gates of a DEFGATE AS SEQUENCE.  They are private to quil-rs: candidates are
+/// read off the printed text (header words, one gate per body line) and accepted only if
+/// `DefGateSequence::try_new` of them is `==` to the specification, i.e. they are the private fields.
+fn sequence_parts(d: &GateDefinition) -> Option<(Vec<String>, Vec<Gate>)> {
+    use quil_rs::quil::Quil;
+    use std::str::FromStr;
+    let spec_text = d.specification.to_quil().ok()?;
+    let mut gates = Vec::new();
+    for line in spec_text.lines() {
+        if line.trim().is_empty() {
+            continue;
+        }
+        match Instruction::from_str(line.trim()) {
+            Ok(Instruction::Gate(g)) => gates.push(g),
+            _ => return None,
+        }
+    }
+    let text = d.to_quil().ok()?;
+    let header = text.lines().next()?.strip_prefix("DEFGATE ")?.strip_suffix(" AS SEQUENCE:")?.to_string();
+    let after = match header.rfind(')') {
+        Some(k) => header[k + 1..].to_string(),
+        None => header.split_whitespace().skip(1).collect::<Vec<_>>().join(" "),
+    };
+    let qs: Vec<String> = after.split_whitespace().map(|x| x.to_string()).collect();
+    let seq = DefGateSequence::try_new(qs.clone(), gates.clone()).ok()?;
+    if GateSpecification::Sequence(seq) == d.specification {
+        Some((qs, gates))
+    } else {
+        None
+    }
 }
